@@ -172,7 +172,9 @@ struct Sim {
     committed_seen: Vec<BTreeMap<u64, (u64, u8)>>,
     commit_seen: Vec<u64>,
     /// entries committed by a node while it was leader: index -> (term, data)
+    /// index -> (entry term, data) plus the term of the leader that committed it
     acked: BTreeMap<u64, (u64, u8)>,
+    acked_in_term: BTreeMap<u64, u64>,
     // --- exclusion by construction (pass B)
     exclude_double_vote: bool,
     exclude_divergent_append: bool,
@@ -227,6 +229,7 @@ impl Sim {
             committed_seen: vec![BTreeMap::new(); n],
             commit_seen: vec![0; n],
             acked: BTreeMap::new(),
+            acked_in_term: BTreeMap::new(),
             exclude_double_vote: false,
             exclude_divergent_append: false,
             excluded: 0,
@@ -608,6 +611,12 @@ impl Sim {
                     // every acknowledged entry must be in the new leader's log at the same index
                     let log = Self::latest_entries(&self.nodes[i].storage, u64::MAX);
                     for (idx, e) in &self.acked {
+                        // leader completeness speaks of leaders of LATER terms: a node that wins
+                        // an election of an earlier term only now (delayed vote responses) is a
+                        // stale leader and cannot commit anything
+                        if self.acked_in_term.get(idx).map(|t| *t >= term).unwrap_or(false) {
+                            continue;
+                        }
                         if log.get(idx) != Some(e) {
                             let mut c = vec![];
                             if self.double_votes > 0 {
@@ -691,6 +700,9 @@ impl Sim {
             if self.nodes[i].v_state() == VState::Leader {
                 for (idx, e) in &committed {
                     if !self.committed_seen[i].contains_key(idx) {
+                        if !self.acked.contains_key(idx) {
+                            self.acked_in_term.insert(*idx, self.nodes[i].v_term());
+                        }
                         self.acked.entry(*idx).or_insert(*e);
                     }
                 }
@@ -1234,7 +1246,7 @@ fn main() {
             safety_property(&mut ctx, Which::C28, "c28-schedule", "c28-schedule-passB");
         }
         Some(Which::C29) => {
-            ctx.rule = "same schedule generators as C28. The harness keeps the set K of (index, term, data) for which a node in Leader state has advanced its commit to that index (the acknowledgement point); whenever a node becomes leader its log must contain every element of K at the same index. Non-trivial: K non-empty and >=2 leader changes. Distinct = hash of the schedule.".into();
+            ctx.rule = "same schedule generators as C28. The harness keeps the set K of (index, term, data) for which a node in Leader state has advanced its commit to that index (the acknowledgement point); whenever a node becomes leader of a term later than the one in which an element of K was committed, its log must contain that element at the same index (a node that wins an election of an earlier term only now, through delayed vote responses, is a stale leader and is not judged). Non-trivial: K non-empty and >=2 leader changes. Distinct = hash of the schedule.".into();
             safety_property(&mut ctx, Which::C29, "c29-schedule", "c29-schedule-passB");
         }
         None => c30(&mut ctx),
